@@ -559,3 +559,38 @@ CASES["C04"] = [c for c in CASES["C04"] if not c[0].startswith("rocc: memoised s
 CASES["C04"].append(("rocc: memoised previous state overlaid in place", "mutant", ROCCF, "from snaxc.inference.trace_acc_state import infer_state_of\n", "from functools import cache\nfrom snaxc.inference.trace_acc_state import infer_state_of\n", []))
 CASES["C04"] = CASES["C04"][:-1]
 CASES["C04"].append(("rocc: memoised previous state overlaid in place", "mutant", ROCCF, _ROCC_OLD, "from functools import cache\n\n\n" + _ROCC_NEW, ["C04.shared-state"]))
+
+DMAF = "snaxc/transforms/snax_copy_to_dma.py"
+TSLD = "snaxc/dialects/tsl.py"
+RTH = "runtime/include/snax_rt.h"
+
+CASES["C05"] = [
+    ("reintroduce F-25 (first maximum wins)", "mutant", TSLD, "@revert:47b14e9~1", "", ["C05.seed-extent"]),
+    ("2-D call without the repeat operand", "mutant", DMAF, "                    dma_stride_dst.results[0],\n                    dma_stride_bound.results[0],\n                ],", "                    dma_stride_dst.results[0],\n                ],", ["C05.proto"]),
+    ("external declaration of the 2-D transfer with 5 inputs", "mutant", DMAF, 'func.FuncOp.external("snax_dma_2d_transfer", 6 * [builtin.IndexType()], [])', 'func.FuncOp.external("snax_dma_2d_transfer", 5 * [builtin.IndexType()], [])', ["C05.proto"]),
+    ("C prototype gains a parameter", "mutant", RTH, "                                       size_t dst_stride, size_t repeat) {", "                                       size_t dst_stride, size_t repeat, size_t flags) {", ["C05.proto"]),
+    ("1-D call: destination pointer first", "mutant", DMAF, "            func_call = func.CallOp(\"snax_dma_1d_transfer\", [pointer_src, pointer_dst, total_size_op], [])", "            func_call = func.CallOp(\"snax_dma_1d_transfer\", [pointer_dst, pointer_src, total_size_op], [])", ["C05.roles"]),
+    ("2-D call in the nest: strides exchanged", "mutant", DMAF, "                        dma_size,\n                        dma_stride_src,\n                        dma_stride_dst,", "                        dma_size,\n                        dma_stride_dst,\n                        dma_stride_src,", ["C05.roles", "C05.nest"]),
+    ("destination pointer extracted from the source", "mutant", DMAF, "        pointer_dst = ExtractAlignedPointerAsIndexOp.get(op.destination)", "        pointer_dst = ExtractAlignedPointerAsIndexOp.get(op.source)", ["C05.roles", "C05.mirror"]),
+    ("destination steps computed on the source memref", "mutant", DMAF, "tsl_dest.get_step_ops(bound_ops, op.destination, in_bytes=True)", "tsl_dest.get_step_ops(bound_ops, op.source, in_bytes=True)", ["C05.mirror"]),
+    ("destination dynamic offset read from the source", "mutant", DMAF, "                offset_op = ExtractStridedMetaDataOp(op.destination)", "                offset_op = ExtractStridedMetaDataOp(op.source)", ["C05.mirror"]),
+    ("destination strides extracted from the source type", "mutant", DMAF, "            strides = extract_strides(op.destination.type)", "            strides = extract_strides(op.source.type)", ["C05.mirror", "C05.roles"]),
+    ("RemainingStride: destination step from the source table", "mutant", DMAF, "                    step_dst_op=step_ops_dst[key],", "                    step_dst_op=step_ops_src[key],", ["C05.roles"]),
+    ("nest: destination pointer advanced by the source step", "mutant", DMAF, "            stride_dst = remaining_strides_list[i].step_dst_op", "            stride_dst = remaining_strides_list[i].step_src_op", ["C05.roles", "C05.mirror", "C05.nest"]),
+    ("source offset added in elements", "mutant", DMAF, "            calc_offset_op = MuliOp(el_bytes_op, offset, IndexType())\n            pointer_src = AddiOp(pointer_src, calc_offset_op, IndexType())", "            calc_offset_op = MuliOp(el_bytes_op, offset, IndexType())\n            pointer_src = AddiOp(pointer_src, offset, IndexType())", ["C05.units", "C05.mirror"]),
+    ("steps requested in elements", "mutant", DMAF, "tsl_source.get_step_ops(bound_ops, op.source, in_bytes=True)", "tsl_source.get_step_ops(bound_ops, op.source)", ["C05.units", "C05.mirror"]),
+    ("DMA size in elements", "mutant", DMAF, "dma_size = ConstantOp.from_int_and_width(lcb[-1].bound * lcb[-1].step * el_bytes, IndexType())", "dma_size = ConstantOp.from_int_and_width(lcb[-1].bound * lcb[-1].step, IndexType())", ["C05.units"]),
+    ("get_step_ops ignores in_bytes for static steps", "mutant", TSLD, "                    step_op = ConstantOp.from_int_and_width(stride.step * el_bytes, IndexType())", "                    step_op = ConstantOp.from_int_and_width(stride.step, IndexType())", ["C05.units"]),
+    ("strided lowering without the shape test", "mutant", DMAF, "                not op.destination.type.get_shape() == op.source.type.get_shape(),\n", "", ["C05.guards"]),
+    ("1-D lowering ignores the destination layout", "mutant", DMAF, "        if not isinstance(op.destination.type.layout, NoneAttr):\n            return\n", "", ["C05.guards"]),
+    ("nest: enclosing loops take their bounds in list order", "mutant", DMAF, "            for_loop = scf.ForOp(lower, upper[len(remaining_strides_list) - 2 - i], step, [], region)", "            for_loop = scf.ForOp(lower, upper[i], step, [], region)", ["C05.nest"]),
+    ("nest: 2-D repeat taken from the next stride", "mutant", DMAF, "        dma_stride_bound = dma_loop.bound_op\n", "        dma_stride_bound = remaining_strides_list[0].bound_op if remaining_strides_list else dma_loop.bound_op\n", ["C05.nest"]),
+    ("nest: innermost loop not advanced", "mutant", DMAF, "        for i in range(len(remaining_strides_list)):\n            next_for_op", "        for i in range(len(remaining_strides_list) - 1):\n            next_for_op", ["C05.nest"]),
+    ("nest: increments appended behind the nested loop", "mutant", DMAF, "            for_loop.body.block.insert_ops_before(ops_to_insert_for_loop, for_loop.body.block.first_op)", "            for_loop.body.block.insert_ops_before(ops_to_insert_for_loop, for_loop.body.block.last_op)", ["C05.nest"]),
+    ("twin: nest built outermost-first with reversed()", "twin", DMAF, "        for i in range(len(remaining_strides_list) - 1):\n            # other for loops have a region with the previous for loop as body\n            region = Region(Block([for_loop, scf.YieldOp()], arg_types=(IndexType(),)))\n            for_loop = scf.ForOp(lower, upper[len(remaining_strides_list) - 2 - i], step, [], region)",
+     "        for outer_bound in reversed(upper[:-1]):\n            # other for loops have a region with the previous for loop as body\n            region = Region(Block([for_loop, scf.YieldOp()], arg_types=(IndexType(),)))\n            for_loop = scf.ForOp(lower, outer_bound, step, [], region)", []),
+    ("twin: roles spelled source/destination in the nest", "twin", DMAF, "            stride_dst = remaining_strides_list[i].step_dst_op\n            increment_dst = MuliOp(for_loop.body.block.args[0], stride_dst, IndexType())\n            pointer_dst = AddiOp(pointer_dst, increment_dst, IndexType())\n            ops_to_insert_for_loop.extend([increment_dst, pointer_dst])",
+     "            stride_dest = remaining_strides_list[i].step_dst_op\n            increment_dest = MuliOp(for_loop.body.block.args[0], stride_dest, IndexType())\n            pointer_dst = AddiOp(pointer_dst, increment_dest, IndexType())\n            ops_to_insert_for_loop.extend([increment_dest, pointer_dst])", []),
+    ("twin: a source-only helper variable is added", "twin", DMAF, "        # step 1: extract base addresses\n", "        src_rank = op.source.type.get_num_dims()\n        assert src_rank > 0\n        # step 1: extract base addresses\n", []),
+    ("twin: seed chosen by extent step*bound", "twin", TSLD, "            if (stride.step, bound) > (max_value, max_bound):", "            if stride.step * bound > max_value * max_bound or (stride.step, bound) > (max_value, max_bound):", []),
+]
